@@ -511,6 +511,17 @@ func (lf *LoopForm) tripValues(g *IG) []ssa.Value {
 	return out
 }
 
+// exitOperands lists the two operands of the loop's exit test.
+func (lf *LoopForm) exitOperands(g *IG) []ssa.Value {
+	if lf.Exit < 0 {
+		return nil
+	}
+	if f, ok := condFact(g.Cond(lf.Exit), true); ok && f.Y != nil {
+		return []ssa.Value{f.X, f.Y}
+	}
+	return nil
+}
+
 // sliceElem resolves the element x[idx] through re-slicings to an element of the
 // underlying slice: s[lo:][i] is s[lo+i], and a slice variable that a loop
 // advances by a constant (for c := s[a:]; ...; c = c[k:]) is s[a+k*T:] in
